@@ -26,6 +26,7 @@ class SourceTree:
         self.files_read = set()
         self.renamed = {}
         self.inlined = {}
+        self._fnren = {}
 
     def with_overlay(self, overlay):
         t = SourceTree(self.root, {**self.overlay, **overlay})
@@ -74,6 +75,12 @@ class SourceTree:
             from . import canon, inline, localnames
             canon.canonicalise(tree)
             inline._reparent(tree)
+            # renamed functions/methods get their recorded name (before helpers are followed: a renamed function is not a new helper)
+            fr = self._fn_renames(rel, tree)
+            cross = self._imported_renames(tree, rel)
+            if fr or cross:
+                localnames.apply_function_renames(tree, fr, cross)
+                self.renamed.setdefault(rel, []).extend([("<function>", k, v) for k, v in list(fr.items()) + list(cross.items())])
             inl = inline.inline_new_helpers(tree, rel)
             if inl:
                 self.inlined.setdefault(rel, []).extend(inl)
@@ -84,6 +91,55 @@ class SourceTree:
                 self.renamed.setdefault(rel, []).extend(ren)
             self._ast[rel] = tree
         return self._ast[rel]
+
+    def _fn_renames(self, rel, tree=None):
+        """{new path: recorded path} of the renamed functions of a file (cached; computed on a private parse when the file's view is not being built)."""
+        if rel in self._fnren:
+            return self._fnren[rel]
+        from . import canon, inline, localnames
+        if not localnames.load_table().get(rel):
+            self._fnren[rel] = {}
+            return {}
+        if tree is None:
+            try:
+                was = rel in self.files_read
+                tree = ast.parse(self.text(rel), filename=rel)
+                if not was:
+                    self.files_read.discard(rel)    # looked at for alias resolution only
+            except (SyntaxError, AnalysisError):
+                self._fnren[rel] = {}
+                return {}
+            canon.canonicalise(tree)
+            inline._reparent(tree)
+        self._fnren[rel] = localnames.function_renames(tree, rel)
+        return self._fnren[rel]
+
+    def _imported_renames(self, tree, rel):
+        """{new plain name: recorded name} for names this file imports from repository modules in which that function was renamed."""
+        from . import localnames
+        tab = localnames.load_table()
+        out = {}
+        for n in ast.walk(tree):
+            if not isinstance(n, ast.ImportFrom):
+                continue
+            if n.level:
+                base = rel.split("/")[:-1]
+                base = base[:len(base) - (n.level - 1)] if n.level > 1 else base
+                mod = "/".join(base + (n.module.split(".") if n.module else []))
+            else:
+                mod = (n.module or "").replace(".", "/")
+            cands = [mod + ".py", mod + "/__init__.py"]
+            m = next((c for c in cands if c in tab), None)
+            if m is None or m == rel:
+                continue
+            unknown = [a.name for a in n.names if a.name != "*" and a.name not in tab[m] and a.name not in tab[m].get("__toplevel__", ())]
+            if not unknown or not self.exists(m):
+                continue
+            ren = self._fn_renames(m)
+            for newp, oldp in ren.items():
+                if "." not in newp and newp in unknown:
+                    out[newp] = oldp
+        return out
 
     def glob(self, subdir, suffixes, exclude=()):
         """All files under subdir (relative) with one of the suffixes, sorted."""
